@@ -65,6 +65,12 @@ pub enum AOp {
 pub struct AsyncCase {
     pub init: (u8, u8),
     pub ops: Vec<AOp>,
+    /// 0: release every guard, drain, then drop the owners; 1: drop the owners while guards obtained
+    /// through subscribers are still held and while lock requests of subscribers have been granted
+    /// but not polled again (guards / tasks borrowing an owner are released / cancelled first,
+    /// without running the executor in between)
+    #[serde(default)]
+    pub finale: u8,
 }
 
 enum Out {
@@ -185,18 +191,26 @@ fn show(o: &Out) -> String {
 
 impl World {
     fn fail<T>(&self, msg: String) -> R<T> {
-        if self.prop == Prop::C16 {
+        self.fail_t(&[], msg)
+    }
+    /// `also`: properties besides C16 that the failed rule belongs to (C01 values/readiness, C02
+    /// wake-ups, C03 end of stream: the async flavour is an Observable/SharedObservable too)
+    fn fail_t<T>(&self, also: &[Prop], msg: String) -> R<T> {
+        if self.prop == Prop::C16 || also.contains(&self.prop) {
             Err(Stop::Violation(format!("[async-lock, guards] {msg}")))
         } else {
             Err(Stop::Tainted(msg))
         }
     }
     fn check(&mut self, c: bool, msg: impl FnOnce() -> String) -> R {
+        self.check_t(c, &[], msg)
+    }
+    fn check_t(&mut self, c: bool, also: &[Prop], msg: impl FnOnce() -> String) -> R {
         self.rep.checks += 1;
         if c {
             Ok(())
         } else {
-            self.fail(msg())
+            self.fail_t(also, msg())
         }
     }
     fn write_held(&self) -> bool {
@@ -250,25 +264,25 @@ impl World {
             Out::WriteGuard(g) => {
                 let seen = (*g).m();
                 let v = self.value;
-                self.check(seen == v, || format!("write guard derefs to {:?}, model value {:?}", seen, v))?;
+                self.check_t(seen == v, &[Prop::C01], || format!("write guard derefs to {:?}, model value {:?}", seen, v))?;
                 self.held.push(Some(Held::W(g)));
             }
             Out::ReadGuard(g) => {
                 let seen = (*g).m();
                 let v = self.value;
-                self.check(seen == v, || format!("read guard derefs to {:?}, model value {:?}", seen, v))?;
+                self.check_t(seen == v, &[Prop::C01], || format!("read guard derefs to {:?}, model value {:?}", seen, v))?;
                 self.held.push(Some(Held::R(g)));
             }
             Out::Val(x) => {
                 let v = self.value;
-                self.check(x == v, || format!("{what} returned {:?}, model value {:?}", x, v))?;
+                self.check_t(x == v, &[Prop::C01], || format!("{what} returned {:?}, model value {:?}", x, v))?;
             }
             Out::SubGuard(s, g, marks_observed) => {
                 let seen = (*g).m();
                 let v = self.value;
-                self.check(seen == v, || format!("{what}: guard derefs to {:?}, model value {:?}", seen, v))?;
+                self.check_t(seen == v, &[Prop::C01], || format!("{what}: guard derefs to {:?}, model value {:?}", seen, v))?;
                 if marks_observed {
-                    self.check(!self.closed, || format!("{what} yielded a guard although the observable is closed"))?;
+                    self.check_t(!self.closed, &[Prop::C03], || format!("{what} yielded a guard although the observable is closed"))?;
                     self.subs[s].unseen = false;
                 }
                 // the subscriber stays borrowed by the guard
@@ -276,7 +290,7 @@ impl World {
                 self.held.push(Some(Held::RS(g, s)));
             }
             Out::SubNextRefNone(_s) => {
-                self.check(self.closed, || format!("{what} resolved to None although the observable is alive"))?;
+                self.check_t(self.closed, &[Prop::C03], || format!("{what} resolved to None although the observable is alive"))?;
             }
             Out::Sub(s) => {
                 let p = Box::into_raw(Box::new(s));
@@ -284,20 +298,21 @@ impl World {
             }
             Out::SubVal(s, x) => {
                 let v = self.value;
-                self.check(x == v, || format!("{what} returned {:?}, model value {:?}", x, v))?;
+                self.check_t(x == v, &[Prop::C01], || format!("{what} returned {:?}, model value {:?}", x, v))?;
                 if what.starts_with("next_now") {
                     self.subs[s].unseen = false;
                 }
             }
             Out::SubNext(s, x) => {
                 let exp = if self.closed { None } else { Some(self.value) };
-                self.check(x == exp, || format!("{what} resolved to {:?}, model expects {:?}", x, exp))?;
+                let tags: &[Prop] = if self.closed || x.is_none() { &[Prop::C01, Prop::C03] } else { &[Prop::C01] };
+                self.check_t(x == exp, tags, || format!("{what} resolved to {:?}, model expects {:?}", x, exp))?;
                 self.subs[s].unseen = false;
             }
             got @ (Out::Set(_) | Out::SetOpt(_) | Out::Unit) => {
                 let wr = writer.expect("writer task");
                 let (exp, notifies) = model_write(&mut self.value, wr);
-                self.check(same(&got, &exp), || format!("{what} returned {}, model expects {}", show(&got), show(&exp)))?;
+                self.check_t(same(&got, &exp), &[Prop::C01], || format!("{what} returned {}, model expects {}", show(&got), show(&exp)))?;
                 if notifies {
                     self.notify();
                 }
@@ -332,10 +347,12 @@ impl World {
                     Some(self.value)
                 } else {
                     // the model says Pending: a Ready(Some) here is a spurious item
-                    return self.fail(format!("subscriber {s}: stream yielded {:?} although it has observed the latest update", x.map(|v| v.m())));
+                    let tags: &[Prop] = if x.is_none() { &[Prop::C01, Prop::C03] } else { &[Prop::C01] };
+                    return self.fail_t(tags, format!("subscriber {s}: stream yielded {:?} although it has observed the latest update", x.map(|v| v.m())));
                 };
                 let got = x.map(|v| v.m());
-                self.check(got == exp, || format!("subscriber {s}: stream yielded {:?}, model expects {:?}", got, exp))?;
+                let tags: &[Prop] = if got.is_none() || exp.is_none() { &[Prop::C01, Prop::C03] } else { &[Prop::C01] };
+                self.check_t(got == exp, tags, || format!("subscriber {s}: stream yielded {:?}, model expects {:?}", got, exp))?;
                 if self.subs[s].polled_under_write {
                     self.sub_polled_under_write_then_ready += 1;
                     self.subs[s].polled_under_write = false;
@@ -396,9 +413,76 @@ impl World {
         for s in 0..self.subs.len() {
             if self.subs[s].stream_flag.is_some() && !self.subs[s].busy {
                 let ready = self.closed || self.subs[s].unseen;
-                self.check(!ready, || {
+                let tags: &[Prop] = if self.closed { &[Prop::C02, Prop::C03] } else { &[Prop::C02, Prop::C01] };
+                self.check_t(!ready, tags, || {
                     format!("subscriber {s}: an update (or the end) is available and no guard is alive, but its pending poll was never woken")
                 })?;
+            }
+        }
+        Ok(())
+    }
+
+    /// Finale 1: the last owners go away while subscribers still hold read guards and while lock
+    /// requests of subscribers have been granted but not polled again. Subscriber-side permits
+    /// never stand in the way of closing: every pending stream poll must be woken and end.
+    fn finale_with_outstanding_permits(&mut self) -> R {
+        // guards obtained through an owner borrow it: release them, and cancel the tasks (they
+        // borrow owners / subscribers), WITHOUT running the executor: subscribers queued behind a
+        // write guard are granted the lock now but are not polled before the owners are gone
+        let queued_streams = self.subs.iter().filter(|s| s.stream_flag.is_some() && !s.busy).count();
+        let had_write = self.write_held();
+        for i in 0..self.held.len() {
+            if matches!(self.held[i], Some(Held::W(_)) | Some(Held::R(_))) {
+                self.held[i] = None;
+            }
+        }
+        for t in &self.tasks {
+            if t.fut.is_some() {
+                if let Some(s) = t.uses_sub {
+                    self.subs[s].busy = false;
+                }
+            }
+        }
+        self.tasks.clear();
+        let sub_guards = self.held.iter().flatten().count();
+        while let Some(p) = self.owners.pop() {
+            drop(unsafe { Box::from_raw(p) });
+        }
+        self.closed = true;
+        if sub_guards > 0 {
+            self.rep.classes.push("owners_dropped_while_subscriber_guard_held");
+        }
+        if had_write && queued_streams > 0 {
+            self.rep.classes.push("owners_dropped_with_subscriber_queued_behind_released_write_guard");
+        }
+        self.run_ready()?;
+        for s in 0..self.subs.len() {
+            if self.subs[s].stream_flag.is_some() && !self.subs[s].busy {
+                return self.fail_t(
+                    &[Prop::C02, Prop::C03],
+                    format!("subscriber {s}: every owner is gone but its pending poll was never woken (guards held through other subscribers: {sub_guards})"),
+                );
+            }
+        }
+        // the guards still show the last value
+        let seen_all: Vec<MOVal> = self.held.iter().flatten().filter_map(|h| if let Held::RS(g, _) = h { Some((**g).m()) } else { None }).collect();
+        for seen in seen_all {
+            let v = self.value;
+            self.check_t(seen == v, &[Prop::C01, Prop::C03], || format!("subscriber guard derefs to {:?} after the end, last value {:?}", seen, v))?;
+        }
+        for i in 0..self.held.len() {
+            if let Some(Held::RS(_, s)) = &self.held[i] {
+                let s = *s;
+                self.subs[s].busy = false;
+            }
+            self.held[i] = None;
+        }
+        self.run_ready()?;
+        for s in 0..self.subs.len() {
+            if self.subs[s].stream_flag.is_none() {
+                self.poll_stream(s, false)?;
+            } else {
+                return self.fail_t(&[Prop::C02, Prop::C03], format!("subscriber {s}: every owner is gone but its pending poll was never woken"));
             }
         }
         Ok(())
@@ -475,7 +559,7 @@ impl World {
                     }
                 };
                 let (exp, notifies) = model_write(&mut self.value, wr);
-                self.check(same(&got, &exp), || format!("write guard {:?} returned {}, model expects {}", wr, show(&got), show(&exp)))?;
+                self.check_t(same(&got, &exp), &[Prop::C01], || format!("write guard {:?} returned {}, model expects {}", wr, show(&got), show(&exp)))?;
                 if notifies {
                     self.notify();
                 }
@@ -613,6 +697,9 @@ pub fn run(case: &AsyncCase, prop: Prop) -> R<CaseReport> {
         for op in &case.ops {
             w.step(*op)?;
         }
+        if case.finale == 1 {
+            return w.finale_with_outstanding_permits();
+        }
         // finale: release every guard; everything must drain
         // (a queued acquire task completes and hands the harness a new guard: release those too)
         for _ in 0..64 {
@@ -660,7 +747,7 @@ pub fn run(case: &AsyncCase, prop: Prop) -> R<CaseReport> {
         return if prop == Prop::C20 { Err(Stop::Violation(msg)) } else { Err(Stop::Tainted(msg)) };
     }
     let mut rep = w.rep;
-    rep.nontrivial = w.queued_then_completed >= 1 || w.sub_polled_under_write_then_ready >= 1;
+    rep.nontrivial = w.queued_then_completed >= 1 || w.sub_polled_under_write_then_ready >= 1 || rep.classes.iter().any(|c| c.starts_with("owners_dropped_"));
     if w.queued_then_completed > 0 {
         rep.classes.push("task_queued_behind_write_guard_completed_after_release");
     }
@@ -703,5 +790,7 @@ pub fn case() -> BoxedStrategy<AsyncCase> {
         1 => Just(AOp::CloneOwner),
         1 => Just(AOp::DropOwner),
     ];
-    ((0u8..3, 0u8..3), proptest::collection::vec(op, 0..=30)).prop_map(|(init, ops)| AsyncCase { init, ops }).boxed()
+    ((0u8..3, 0u8..3), proptest::collection::vec(op, 0..=30), prop_oneof![2 => Just(0u8), 1 => Just(1u8)])
+        .prop_map(|(init, ops, finale)| AsyncCase { init, ops, finale })
+        .boxed()
 }
